@@ -71,18 +71,310 @@ example : LongestPending [([93, 1], 0), ([93, 1, 2], 1), ([93, 1, 2, 3], 2)] [93
   · decide
   · exact absurd hpre (by decide)
 
-/-! ## the code before the repair (D10): concrete counterexamples -/
+/-! ## The property clauses, as predicates of the code variant `c` (so that they can be proved of the current
+source `srcCfg` and refuted of the unrepaired code `liveCfg`).  Throughout, `evs₁` is an arbitrary history (any
+schedule of sends, replies, timer expiries, timer callbacks, closes, link errors, re-opens) leading to the state `s`,
+and `evs₂` an arbitrary continuation. -/
+
+/-- Request `r` (packet `pk`, pattern `p`, timeout `T`) is outstanding: its pattern is registered to a live retry timer
+(armed, or fired with its callback pending) on the open link, and that timer is due exactly one timeout after the
+latest transmission of the request, which carried `pk` and went to the open link. -/
+def Outstanding (s : State) (r : Nat) (pk : Pk) (p : Pattern) (T : Nat) : Prop :=
+  ∃ j t l last, s.timers[j]? = some t ∧ dget s.patterns p = some j ∧ s.link = some l ∧
+    t.req = r ∧ t.pk = pk ∧ t.pattern = p ∧ t.interval = T ∧ (t.st = .armed ∨ t.st = .expired) ∧
+    s.log.find? (fun x => x.req == r) = some last ∧ last.pk = pk ∧ last.sid = l.sid ∧ last.time + T = t.deadline
+
+/-- "retransmitted at its timeout interval for as long as the link is open until a matching packet is received":
+a request sent with an expected reply on an open link that needs resending is transmitted at once and stays
+`Outstanding` through every continuation in which the link is not closed / lost / replaced, no packet arrives whose
+longest pending prefix is the request's pattern, and the same pattern is not requested again. -/
+def RetriesUntilAnswered (c : Cfg) : Prop :=
+  ∀ (evs₁ : List Ev) (l : Link) (pk : Pk) (ex : Pattern) (T : Nat) (evs₂ : List Ev),
+    let s := run c init evs₁
+    s.link = some l → l.needsResending = true → ex ≠ [] → pk.size ≤ Gen.C10.maxDataSize →
+    let s1 := stepT c s (.send pk ex T)
+    (∃ tx, s1.log = tx :: s.log ∧ tx.pk = pk ∧ tx.sid = l.sid ∧ tx.time = s.now ∧ tx.req = s.nextReq ∧ tx.retry = none) ∧
+    (QuietRun c s1 (pk.header :: ex) evs₂ → Outstanding (run c s1 evs₂) s.nextReq pk (pk.header :: ex) T)
+
+/-- ... and the outstanding retry does happen: once the timer is due its thread can take its two steps, and the
+callback retransmits the same packet on the open link and schedules the next retry one timeout later. -/
+def RetryFires (c : Cfg) : Prop :=
+  ∀ (evs : List Ev) (r : Nat) (pk : Pk) (p : Pattern) (T j : Nat) (t : Timer) (l : Link),
+    let s := run c init evs
+    s.timers[j]? = some t → dget s.patterns p = some j → s.link = some l →
+    t.req = r → t.pk = pk → t.pattern = p → t.interval = T →
+    (t.st = .armed → t.deadline ≤ s.now →
+      step c s (.expire j) = .ok { s with timers := s.timers.modify j (setSt .expired) }) ∧
+    (t.st = .expired →
+      ∃ s', step c s (.run j) = .ok s' ∧
+        s'.log = { time := s.now, sid := l.sid, pk := pk, req := r, retry := some j, due := t.deadline, interval := T,
+                   onClosed := false } :: s.log ∧
+        Outstanding s' r pk p T)
+
+/-- consecutive transmissions of one request: the later one is a retry, on the same link, of the same packet, due
+exactly one timeout (the interval the request was sent with) after the earlier one, and not sent before it is due -/
+def RetryGap (a b : Tx) : Prop :=
+  b.time + a.interval = a.due ∧ a.due ≤ a.time ∧ b.pk = a.pk ∧ b.sid = a.sid ∧ b.interval = a.interval ∧ a.retry.isSome
+
+/-- "at its timeout interval": in every run the transmissions of every request are spaced by `RetryGap`. -/
+def RetriesAtTimeout (c : Cfg) : Prop :=
+  ∀ (evs : List Ev) (r : Nat), GapsOf RetryGap (txOf r (run c init evs).log)
+
+/-- "and is not retransmitted after that": once a packet arrives whose longest pending prefix is the request's
+pattern, the request is never transmitted again. -/
+def NoRetryAfterAnswer (c : Cfg) : Prop :=
+  ∀ (evs₁ : List Ev) (h : Nat) (d : List Nat) (evs₂ : List Ev) (j : Nat) (t : Timer),
+    let s := run c init evs₁
+    s.timers[j]? = some t → LongestPending s.patterns (h :: d) t.pattern →
+    ∀ tx ∈ (run c (stepT c s (.recv h d)) evs₂).log, tx.req = t.req → tx ∈ s.log
+
+/-- "nothing is ever transmitted on a closed link": while no link is open no step transmits; a step transmits at most
+one packet, to the link that is open when it runs; and that link object has never been closed. -/
+def NothingOnClosedLink (c : Cfg) : Prop :=
+  ∀ (evs : List Ev) (e : Ev),
+    let s := run c init evs
+    (s.link = none → (stepT c s e).log = s.log) ∧
+    (∀ l, s.link = some l → (stepT c s e).log = s.log ∨ ∃ tx, (stepT c s e).log = tx :: s.log ∧ tx.sid = l.sid) ∧
+    (∀ tx ∈ s.log, tx.onClosed = false)
+
+/-- "a request from one session is never transmitted in a later session": all transmissions of a request go to one
+link object; link objects are never reused (`sid` of a new link is larger than that of every earlier transmission);
+and after `close_link`, a link error or `open_link` no request made before is ever transmitted again. -/
+def NoCrossSessionTx (c : Cfg) : Prop :=
+  (∀ (evs : List Ev), ∀ a ∈ (run c init evs).log, ∀ b ∈ (run c init evs).log, a.req = b.req → a.sid = b.sid) ∧
+  (∀ (evs : List Ev), ∀ tx ∈ (run c init evs).log, tx.sid < (run c init evs).nextSid) ∧
+  (∀ (evs₁ : List Ev) (e : Ev) (evs₂ : List Ev), (e = .closeRest ∨ e = .linkError ∨ ∃ nr, e = .openLink nr) →
+    let s := run c init evs₁
+    ∀ tx ∈ (run c (stepT c s e) evs₂).log, tx.req < s.nextReq → tx ∈ s.log)
+
+/-- "on links that guarantee delivery no retransmission happens": a request sent while the open link does not need
+resending is transmitted exactly once, no timer is created for it, and it is never transmitted again. -/
+def ReliableLinkNoRetry (c : Cfg) : Prop :=
+  ∀ (evs₁ : List Ev) (l : Link) (pk : Pk) (ex : Pattern) (T : Nat) (evs₂ : List Ev),
+    let s := run c init evs₁
+    s.link = some l → l.needsResending = false → pk.size ≤ Gen.C10.maxDataSize →
+    let s1 := stepT c s (.send pk ex T)
+    s1.timers = s.timers ∧ s1.patterns = s.patterns ∧
+    (∃ tx, s1.log = tx :: s.log ∧ tx.pk = pk ∧ tx.sid = l.sid ∧ tx.req = s.nextReq ∧ tx.retry = none) ∧
+    ∀ tx ∈ (run c s1 evs₂).log, tx.req = s.nextReq → tx ∈ s1.log
+
+/-! ## The theorems (about the current source) -/
+
+theorem outstanding_of_sched {s : State} (hI : Inv s) {r : Nat} {pk : Pk} {p : Pattern} {T j : Nat}
+    (hs : Sched s r pk p T j) : Outstanding s r pk p T := by
+  obtain ⟨t', l', last, ht', hl', hf, h1, h2, _, h4⟩ := sched_last hI hs
+  obtain ⟨t, l, ht, hent, hl, hreq, hpk, hpat, hint, hst⟩ := hs
+  have e1 : t' = t := Option.some.inj (ht'.symm.trans ht)
+  have e2 : l' = l := Option.some.inj (hl'.symm.trans hl)
+  subst e1; subst e2
+  exact ⟨j, t', l', last, ht, hent, hl, hreq, hpk, hpat, hint, hst, hf, h1, h2, h4⟩
+
+theorem retries_until_answered : RetriesUntilAnswered srcCfg := by
+  intro evs₁ l pk ex T evs₂ s hl hnr hex hsz s1
+  have hc := src_repaired
+  have hI : Inv s := inv_reach hc evs₁
+  have heq := stepT_of_ok (send_arms_eq hc hl hnr pk ex T hex hsz)
+  have hI1 : Inv s1 := inv_stepT hc hI _
+  refine ⟨⟨mkTx s l pk s.nextReq none s.now T, by show (stepT srcCfg s _).log = _; rw [heq], rfl, rfl, rfl, rfl, rfl⟩, fun hq => ?_⟩
+  have hs1 : Sched s1 s.nextReq pk (pk.header :: ex) T s.timers.length := by
+    show Sched (stepT srcCfg s _) _ _ _ _ _
+    rw [heq]
+    exact ⟨mkTimer s pk (pk.header :: ex) T s.nextReq, l, by simp, by simp [dget_dset], hl, rfl, rfl, rfl, rfl, Or.inl rfl⟩
+  obtain ⟨j', hs'⟩ := sched_run hc hI1 hs1 evs₂ hq
+  exact outstanding_of_sched (inv_run hc hI1 evs₂) hs'
+
+theorem retry_fires : RetryFires srcCfg := by
+  intro evs r pk p T j t l s ht hent hl hreq hpk hpat hint
+  have hc := src_repaired
+  have hI : Inv s := inv_reach hc evs
+  refine ⟨fun ha hd => expire_eq _ ht ha hd, fun he => ?_⟩
+  have hent' : dget s.patterns t.pattern = some j := by rw [hpat]; exact hent
+  have hstep := run_retry_eq hc ht he hl hent'
+  refine ⟨_, hstep, ?_, ?_⟩
+  · simp only [mkTx, hpk, hreq, hint, List.cons.injEq, and_true]
+    have := (hI.linkFresh l hl).2
+    simp [this]
+  · have hI' : Inv (stepT srcCfg s (.run j)) := inv_stepT hc hI _
+    rw [stepT_of_ok hstep] at hI'
+    refine outstanding_of_sched hI' (j := s.timers.length) ?_
+    refine ⟨mkTimer s t.pk t.pattern t.interval t.req, l, ?_, ?_, hl, hreq, hpk, hpat, hint, Or.inl rfl⟩
+    · rw [List.getElem?_append_right (by simp)]; simp
+    · simp [dget_dset, hpat]
+
+theorem retries_at_timeout : RetriesAtTimeout srcCfg := by
+  intro evs r
+  exact gaps_of_spaced (inv_reach src_repaired evs).spaced r
+
+/-- Closed form for punctual timers: if every retry of request `r` is sent when it is due, its `k`-th transmission
+(counted from the first, `k = 0`) happens at `t0 + k * T`, where `T` is the timeout the request was sent with. -/
+theorem retries_at_t0_plus_kT (evs : List Ev) (r : Nat)
+    (hp : ∀ tx ∈ (run srcCfg init evs).log, tx.req = r → tx.retry.isSome → tx.time = tx.due)
+    (k : Nat) (x first : Tx) (hk : (txOf r (run srcCfg init evs).log).reverse[k]? = some x)
+    (h0 : (txOf r (run srcCfg init evs).log).reverse[0]? = some first) :
+    x.time = first.time + k * first.interval ∧ x.pk = first.pk ∧ x.sid = first.sid := by
+  have hI := inv_reach src_repaired evs
+  have hmem : ∀ y, y ∈ txOf r (run srcCfg init evs).log → y ∈ (run srcCfg init evs).log ∧ y.req = r := by
+    intro y hy; simp only [txOf, List.mem_filter, beq_iff_eq] at hy; exact hy
+  have hx := hmem x (List.mem_reverse.mp (List.mem_of_getElem? hk))
+  have hf := hmem first (List.mem_reverse.mp (List.mem_of_getElem? h0))
+  have hsame := hI.sameReq x hx.1 first hf.1 (hx.2.trans hf.2.symm)
+  refine ⟨?_, hsame.2.1, hsame.1⟩
+  have hg := retries_at_timeout evs r
+  have hg' : GapsOf (fun a b => a.time = b.time + first.interval) (txOf r (run srcCfg init evs).log) := by
+    generalize txOf r (run srcCfg init evs).log = L at hg hmem
+    clear hk h0 hx hsame
+    induction L with
+    | nil => trivial
+    | cons a rest ih =>
+      cases rest with
+      | nil => trivial
+      | cons b rest' =>
+        obtain ⟨hab, hrest⟩ := hg
+        have ha := hmem a (by simp)
+        refine ⟨?_, ih hrest (fun y hy => hmem y (List.mem_cons_of_mem _ hy))⟩
+        have hint := (hI.sameReq a ha.1 first hf.1 (ha.2.trans hf.2.symm)).2.2
+        have := hp a ha.1 ha.2 hab.2.2.2.2.2
+        show a.time = b.time + first.interval
+        rw [this, ← hab.1, hint]
+  exact arith_of_gaps _ hg' k x first hk h0
+
+theorem no_retry_after_answer : NoRetryAfterAnswer srcCfg := by
+  intro evs₁ h d evs₂ j t s ht hp tx htx hreq
+  have hc := src_repaired
+  have hI : Inv s := inv_reach hc evs₁
+  obtain ⟨i, hi⟩ := Option.isSome_iff_exists.mp ((dget_isSome_iff _ _).mpr hp.1)
+  have hne := hI.keyNe _ i hi
+  have hdead := answered_dead hc hI h d ht hp hne
+  have hsh := step_shape hc s (.recv h d)
+  have hr : t.req < (stepT srcCfg s (.recv h d)).nextReq :=
+    Nat.lt_of_lt_of_le (hI.treq j t ht) (shape_nextReq_le hsh)
+  have h1 := (dead_run hc (inv_shape hI hsh) hr hdead evs₂).2 tx htx hreq
+  rwa [shape_log_noTx hsh (by simp [NoTxEv])] at h1
+
+theorem nothing_on_closed_link : NothingOnClosedLink srcCfg := by
+  intro evs e s
+  have hc := src_repaired
+  have hI : Inv s := inv_reach hc evs
+  have hsh := step_shape hc s e
+  refine ⟨fun hn => ?_, fun l hl => ?_, hI.noClosedTx⟩
+  · rcases shape_log hsh with h | ⟨l, _, hl, _⟩
+    · exact h
+    · rw [hn] at hl; cases hl
+  · rcases shape_log hsh with h | ⟨l', tx, hl', h, hs, _⟩
+    · exact Or.inl h
+    · rw [hl] at hl'; cases hl'; exact Or.inr ⟨tx, h, hs⟩
+
+theorem no_cross_session_tx : NoCrossSessionTx srcCfg := by
+  have hc := src_repaired
+  refine ⟨fun evs a ha b hb hreq => ((inv_reach hc evs).sameReq a ha b hb hreq).1,
+    fun evs => (inv_reach hc evs).lsid, ?_⟩
+  intro evs₁ e evs₂ he s tx htx hr
+  have hI : Inv s := inv_reach hc evs₁
+  have hsh := step_shape hc s e
+  have hdead := session_end_dead hc s e he tx.req
+  have hr' : tx.req < (stepT srcCfg s e).nextReq := Nat.lt_of_lt_of_le hr (shape_nextReq_le hsh)
+  have h1 := (dead_run hc (inv_shape hI hsh) hr' hdead evs₂).2 tx htx rfl
+  have hno : NoTxEv e := by rcases he with rfl | rfl | ⟨nr, rfl⟩ <;> simp [NoTxEv]
+  rwa [shape_log_noTx hsh hno] at h1
+
+theorem reliable_link_no_retry : ReliableLinkNoRetry srcCfg := by
+  intro evs₁ l pk ex T evs₂ s hl hnr hsz s1
+  have hc := src_repaired
+  have hI : Inv s := inv_reach hc evs₁
+  have heq : s1 = _ := stepT_of_ok (send_plain_eq hc hl pk ex T (Or.inr hnr) hsz)
+  have hI1 : Inv s1 := inv_stepT hc hI _
+  refine ⟨by rw [heq], by rw [heq], ⟨mkTx s l pk s.nextReq none s.now T, by rw [heq], rfl, rfl, rfl, rfl⟩, ?_⟩
+  have hdead : ReqDead s1 s.nextReq := by
+    rw [heq]
+    intro i t ht hreq
+    have := hI.treq i t ht
+    omega
+  exact (dead_run hc hI1 (by rw [heq]; exact Nat.lt_succ_self _) hdead evs₂).2
+
+/-- If every link that is ever opened guarantees delivery, no retry timer is ever created. -/
+theorem reliable_links_no_timers (evs : List Ev) (h : ∀ e ∈ evs, ReliableOnly e) :
+    (run srcCfg init evs).timers = [] :=
+  reliable_run src_repaired (by simp [init]) rfl evs h
+
+/-- Which links guarantee delivery according to the drivers: USB does; the radio link does once safelink has been
+negotiated and does not otherwise (nor before the negotiation has finished); the `CRTPDriver` default is "does not". -/
+theorem driver_needs_resending :
+    driverNeedsResending .usb = false ∧ driverNeedsResending (.radio true true) = false ∧
+    driverNeedsResending (.radio true false) = true ∧ (∀ sl, driverNeedsResending (.radio false sl) = true) ∧
+    driverNeedsResending .base = true := by decide
+
+/-! ## the code before the repair (D10): the same clauses are false, with concrete witnesses
+(replayed on the real code by `harness/corpus/c10/d10-*.json`) -/
 
 /-- D10, face 1: the timer has fired, the answer arrives, the callback runs afterwards - and transmits. -/
-theorem live_retry_after_answer_counterexample :
-    (run liveCfg init [.openLink true, .send ⟨1, 93, 2⟩ [3, 7] 200, .advance 200, .expire 0,
-        .recv 93 [3, 7, 0], .run 0]).log.map (fun t => (t.time, t.sid, t.pk.id, t.retry))
-      = [(200, 0, 1, some 0), (0, 0, 1, none)] := by decide
+theorem live_no_retry_after_answer_counterexample : ¬ NoRetryAfterAnswer liveCfg := by
+  intro h
+  have hp : LongestPending [([93, 3, 7], 0)] [93, 3, 7, 0] [93, 3, 7] := by
+    refine ⟨by decide, by decide, ?_⟩
+    intro q hq _
+    simp only [keys, List.map_cons, List.map_nil, List.mem_cons, List.not_mem_nil, or_false] at hq
+    subst hq; decide
+  have := h [.openLink true, .send ⟨1, 93, 2⟩ [3, 7] 200, .advance 200, .expire 0] 93 [3, 7, 0] [.run 0] 0
+    ⟨⟨1, 93, 2⟩, [93, 3, 7], 200, 200, 0, .expired⟩ (by decide) hp
+    ⟨200, 0, ⟨1, 93, 2⟩, 0, some 0, 200, 200, false⟩ (by decide) (by decide)
+  revert this
+  decide
 
-/-- D10, face 2: close + reopen within the timeout puts the session-0 request on the session-1 link. -/
-theorem live_cross_session_counterexample :
-    (run liveCfg init [.openLink true, .send ⟨1, 93, 2⟩ [3, 7] 1000, .advance 300, .closeSetpoint, .closeRest,
-        .openLink true, .advance 700, .expire 0, .run 0]).log.map (fun t => (t.time, t.sid, t.pk.id))
-      = [(1000, 1, 1), (300, 0, 0), (0, 0, 1)] := by decide
+/-- D10, faces 2 and 3: close + reopen within the timeout puts the session-0 request on the session-1 link. -/
+theorem live_no_cross_session_tx_counterexample : ¬ NoCrossSessionTx liveCfg := by
+  intro h
+  have := h.1 [.openLink true, .send ⟨1, 93, 2⟩ [3, 7] 1000, .advance 300, .closeSetpoint, .closeRest,
+      .openLink true, .advance 700, .expire 0, .run 0]
+    ⟨1000, 1, ⟨1, 93, 2⟩, 0, some 0, 1000, 200, false⟩ (by decide)
+    ⟨0, 0, ⟨1, 93, 2⟩, 0, none, 0, 1000, false⟩ (by decide) (by decide)
+  revert this
+  decide
+
+/-- ... and after a link error + reopen the old request is re-armed on the new link again and again. -/
+theorem live_link_error_rearm_counterexample :
+    (run liveCfg init [.openLink true, .send ⟨1, 93, 2⟩ [3, 7] 200, .linkError, .openLink true,
+        .advance 200, .expire 0, .run 0, .advance 200, .expire 1, .run 1, .advance 200, .expire 2, .run 2]).log.map
+        (fun t => (t.time, t.sid, t.pk.id, t.retry))
+      = [(600, 1, 1, some 2), (400, 1, 1, some 1), (200, 1, 1, some 0), (0, 0, 1, none)] := by decide
+
+/-- D10, face 4: a request sent with timeout 1000 ms is retried after 1000 ms and then every 200 ms. -/
+theorem live_retries_at_timeout_counterexample : ¬ RetriesAtTimeout liveCfg := by
+  intro h
+  have h1 := h [.openLink true, .send ⟨1, 77, 4⟩ [1, 2] 1000, .advance 1000, .expire 0, .run 0,
+      .advance 200, .expire 1, .run 1] 0
+  have hlog : txOf 0 (run liveCfg init [.openLink true, .send ⟨1, 77, 4⟩ [1, 2] 1000, .advance 1000, .expire 0,
+      .run 0, .advance 200, .expire 1, .run 1]).log =
+      [⟨1200, 0, ⟨1, 77, 4⟩, 0, some 1, 1200, 200, false⟩, ⟨1000, 0, ⟨1, 77, 4⟩, 0, some 0, 1000, 200, false⟩,
+       ⟨0, 0, ⟨1, 77, 4⟩, 0, none, 0, 1000, false⟩] := by decide
+  rw [hlog] at h1
+  have := h1.2.1.1
+  revert this
+  decide
+
+/-! ## Non-vacuity: concrete instances of the hypotheses -/
+
+/-- a history after which a request is outstanding on an open link that needs resending, with a second,
+prefix-sharing request pending, and a quiet continuation in which the first timer fires and re-arms -/
+example : QuietRun srcCfg (stepT srcCfg (run srcCfg init [.openLink true, .send ⟨1, 93, 2⟩ [3] 200])
+      (.send ⟨2, 93, 2⟩ [3, 7] 1000)) [93, 3, 7]
+    [.advance 200, .expire 0, .run 0, .recv 93 [3, 9], .advance 800, .expire 1, .run 1] := by
+  refine ⟨trivial, trivial, trivial, ?_, trivial, trivial, trivial, trivial⟩
+  intro h
+  exact absurd h.2.1 (by decide)
+
+example : (run srcCfg init [.openLink true, .send ⟨1, 93, 2⟩ [3] 200]).link = some ⟨0, true⟩ := by decide
+example : (run srcCfg init [.openLink true, .send ⟨1, 93, 2⟩ [3] 200, .send ⟨2, 93, 2⟩ [3, 7] 1000, .advance 1000,
+    .expire 1]).timers[1]? = some ⟨⟨2, 93, 2⟩, [93, 3, 7], 1000, 1000, 1, .expired⟩ := by decide
+/-- the repaired code on the D10 witnesses: no retransmission after the answer, none in the next session -/
+example : (run srcCfg init [.openLink true, .send ⟨1, 93, 2⟩ [3, 7] 200, .advance 200, .expire 0,
+    .recv 93 [3, 7, 0], .run 0]).log.map (fun t => (t.time, t.sid, t.pk.id, t.retry)) = [(0, 0, 1, none)] := by decide
+example : (run srcCfg init [.openLink true, .send ⟨1, 93, 2⟩ [3, 7] 1000, .advance 300, .closeSetpoint, .closeRest,
+    .openLink true, .advance 700, .expire 0, .run 0]).log.map (fun t => (t.time, t.sid, t.pk.id)) =
+    [(300, 0, 0), (0, 0, 1)] := by decide
+/-- a request retried twice, punctually: transmissions at 0, 1000, 2000 -/
+example : (txOf 0 (run srcCfg init [.openLink true, .send ⟨1, 77, 4⟩ [1, 2] 1000, .advance 1000, .expire 0, .run 0,
+    .advance 1000, .expire 1, .run 1]).log).map (fun t => (t.time, t.due)) = [(2000, 2000), (1000, 1000), (0, 0)] := by
+  decide
+example : ReliableOnly (.openLink false) ∧ ReliableOnly (.send ⟨1, 93, 2⟩ [3] 200) := ⟨rfl, trivial⟩
 
 end CfVerif.C10
